@@ -264,6 +264,10 @@ def run(ctx):
         cases.append(validator_case(rules, rng, missing=r < 0.1, unknown=0.1 <= r < 0.3, unparseable=0.3 <= r < 0.45, only_default=od))
     rejected, st = tlc.judge_cases('Conf_Validate', [ec.strip_case(c) for c in cases], chunk=20000, timeout=3000)
     ctx.traces += len(cases)
+    from harness import canary
+    from checks import canaries
+    canary.probe(ctx, 'Conf_Validate', [c for i, c in enumerate(cases, 1) if i not in set(rejected)], canaries.validate,
+                 canary.by_cases('Conf_Validate', ec.strip_case))
     for i in rejected:
         c = cases[i - 1]
         if c['crashed']:
